@@ -362,7 +362,10 @@ def search(rng, tier):
         root = b.build(tree)
         ids = {a: o.id for a, o in b.objs.items()}
         for f in ("json", "msgpck", "yaml"):
-            payload = getattr(root, "to_" + f)()
+            try:
+                payload = getattr(root, "to_" + f)()
+            except Exception as e:  # noqa: a well-formed tree that cannot be written at all does not round-trip
+                return {"input": repr(tree)[:3000], "format": f, "what": f"to_{f} raised {type(e).__name__}: {str(e)[:200]}"}
             keep_ids = [o.id for o in root.dfs()] if False else None  # noqa: F841
             cls = type(root)
             ref = copy.copy(ids)
@@ -371,7 +374,10 @@ def search(rng, tier):
             b.objs.clear()
             b.addr_of.clear()
             gc.collect()
-            res = getattr(cls, "from_" + f)(payload)
+            try:
+                res = getattr(cls, "from_" + f)(payload)
+            except Exception as e:  # noqa
+                return {"input": txt[:3000], "format": f, "what": f"from_{f} raised {type(e).__name__}: {str(e)[:200]}"}
             b = Built(u, mk_origin)
             root = b.build(tree)
             if not (res == root) or res.id != ref[tree.args[0]]:
